@@ -174,6 +174,53 @@ def main():
              ';\n '.join(f'({q(n)}, {q(c)})' for n, c in sorted(L['convert_names'].items())) + '].')
     o.append('Definition lib_properties : list string := [' + '; '.join(q(p) for p in L['properties']) + '].')
     changed.append(write_if_changed(os.path.join(gen, 'Lib.v'), '\n'.join(o) + '\n'))
+    # ---- SimpleTypes.v (both sides of C05)
+    import regex as RX
+
+    def ostr(x):
+        return 'None' if x is None else '(Some %s)' % q(x)
+
+    def opat(p, syntax):
+        if p is None:
+            return 'None'
+        return '(Some %s)' % RX.to_coq(RX.parse(p, syntax))
+
+    def lst(l):
+        return '[' + '; '.join(q(x) for x in l) + ']'
+    o = ['From MX Require Import Spec.CharRe Model.SimpleType.', 'From Coq Require Import String List NArith ZArith.', 'Import ListNotations.', 'Open Scope string_scope.']
+    pyt = {'int': 'TInt', 'float': 'TFloat', 'str': 'TStr'}
+    rows = []
+    for k, d in sorted(L['stypes'].items()):
+        ty = d['own'].get('_TYPES')
+        forced = d['own'].get('_FORCED_PERMITTED')
+        restr = d['restriction']
+        rows.append('(%s, mkL %s %s %s %s %s %s %s [%s] %s %s %s)' % (
+            q(k), lst([m for m in d['mro'] if m != 'XSDSimpleType']),
+            'None' if ty is None else '(Some [%s])' % '; '.join(pyt[t] for t in ty),
+            'None' if forced is None else '(Some %s)' % lst(forced),
+            'None' if d['union'] is None else '(Some %s)' % lst(d['union']),
+            opat(d['own'].get('_PATTERN'), 'py'), opat(d.get('own_first_pattern'), 'py'),
+            ostr(restr['base']) if restr else 'None',
+            '; '.join('(%s, %s)' % (q(t), q(v or '')) for t, v in restr['children']) if restr else '',
+            cbool(d.get('has_restriction', False)), lst(d['union_node']['inner_enum']) if d['union_node'] else '[]', cbool(d['value_setter'])))
+    o.append('Definition lib_st : ltable := [' + ';\n '.join(rows) + '].')
+
+    def oz(x):
+        return 'None' if x is None else '(Some (%d)%%Z)' % int(x)
+    rows = []
+    for k, d in sorted(stypes.items()):
+        if len(d['patterns']) > 1:
+            raise RuntimeError('more than one pattern facet on ' + k)
+        if d['maxExclusive'] is not None:
+            raise RuntimeError('maxExclusive facet not modelled: ' + k)
+        inner = [e for i in d['inner'] for e in i['enum']]
+        rows.append('(%s, mkX %s %s %s %s %s %s %s %s %s)' % (
+            q(k), ostr(d['base']), lst(d['enum']), opat(d['patterns'][0] if d['patterns'] else None, 'xsd'), oz(d['minInclusive']), oz(d['maxInclusive']),
+            oz(d['minExclusive']), 'None' if d['minLength'] is None else '(Some %d%%nat)' % int(d['minLength']), lst(d['union'] or []), lst(inner)))
+    o.append('Definition xsd_st : xtable := [' + ';\n '.join(rows) + '].')
+    o.append('(* library class of every schema simple type, by the naming rule *)')
+    o.append('Definition st_pairs : list (string * string) := [' + '; '.join('(%s, %s)' % (q(k), q(SCH.cls_name(k, 'XSDSimpleType'))) for k in sorted(stypes)) + '].')
+    changed.append(write_if_changed(os.path.join(gen, 'SimpleTypes.v'), '\n'.join(o) + '\n'))
     # ---- sidecar for the harness
     side = {'sym': SY.e, 'grp': SY.g, 'types': tnames, 'templates': L['templates'],
             'xsd_particles': {k: v['particle'] for k, v in ctypes.items() if v['particle']},
